@@ -851,7 +851,7 @@ def store_subscript(ex, obj, idx, v):
 # attributes of values
 # ------------------------------------------------------------------------------------------------
 
-_TENSOR_METHODS = {'topk', 'clone', 'detach', 'to', 'cpu', 'cuda', 'numpy', 'numel', 'permute', 'requires_grad_', 't', 'conj',
+_TENSOR_METHODS = {'resolve_conj', 'topk', 'clone', 'detach', 'to', 'cpu', 'cuda', 'numpy', 'numel', 'permute', 'requires_grad_', 't', 'conj',
                    'backward', 'retain_grad', 'reshape', 'sum', 'item', 'size', 'dim', 'squeeze', 'unsqueeze', 'norm',
                    'copy', 'flatten', 'transpose', 'contiguous', 'double', 'float', 'view', 'abs', 'tolist', 'type', 'index'}
 _LIST_METHODS = {'append', 'copy', 'index', 'count', 'extend', 'insert', 'pop', 'reverse', 'sort', 'remove', 'clear'}
@@ -865,6 +865,8 @@ def value_attr(ex, obj, name):
             return I.DType(obj.dtype)
         if name == 'device':
             return I.CPU
+        if name == 'is_cuda':
+            return False
         if name == 'T':
             if obj.ndim != 2:
                 raise OutOfSubset('.T on a non-matrix')
@@ -1319,6 +1321,8 @@ def tensor_method(ex, t, name, args, kwargs):
     if name == 'numpy':
         if t.deps or (t.requires_grad):
             raise PyRaise('RuntimeError', "Can't call numpy() on Tensor that requires grad", origin='torch')
+        if getattr(t, 'conj_bit', False):
+            raise PyRaise('RuntimeError', "Can't call numpy() on Tensor that has conjugate bit set", origin='torch')
         out = STensor(list(t.axes), t.dtype, t._val, lib='numpy', ival=t.ival)
         out.ghost = dict(t.ghost)
         T.derive(out, t, differentiable=False, view_of=t)
@@ -1349,6 +1353,12 @@ def tensor_method(ex, t, name, args, kwargs):
         return _topk(ex, t, args, kwargs)
     if name == 'conj':
         return T.conj(t)
+    if name == 'resolve_conj':
+        if not getattr(t, 'conj_bit', False):
+            return t
+        c = T.clone(t)
+        c.conj_bit = False
+        return c
     if name == 'abs':
         return T.unary_fn(t, 'abs')
     if name in ('reshape', 'view'):
@@ -2427,3 +2437,8 @@ def value_attr(ex, obj, name):   # noqa: F811
             return getattr(obj, 'tiny' if name == 'smallest_normal' else name)
         raise PyRaise('AttributeError', "'finfo' object has no attribute %r" % name)
     return _va_fin(ex, obj, name)
+
+
+@ext('torch.promote_types')
+def _promote_types(ex, a, k):
+    return I.DType(T.promote(str(a[0]), str(a[1])))
